@@ -288,9 +288,11 @@ fn parse_operand_list<'a>(i: SliceIter<'a, Token>) -> ParseResult<'a, Vec<Elemen
         ) {
             Result::Fail(e) => {
                 if firstrun {
-                    // If we don't find an operator in our first
-                    // run then this is not an operand list.
-                    return Result::Fail(e);
+                    // No operator follows the first operand: the operand
+                    // is the whole expression. Returning it keeps the caller
+                    // from parsing the same tokens a second time.
+                    let _ = e;
+                    break;
                 }
                 // if we don't find one on subsequent runs then
                 // that's the end of the operand list.
